@@ -236,6 +236,45 @@ const (
 	clsOther  = 0
 )
 
+// stdHelpers: names of package-level functions whose body calls
+// sshagent.ServeAgent(p0, p1) on their own two parameters (e.g. a wrapper that
+// adds a deferred recover). A call h(agent, forwarder) then counts as the
+// standard-request replay.
+var stdHelpers = map[string]bool{}
+
+func findStdHelpers(f *ast.File) {
+	for _, d := range f.Decls {
+		fd, ok := d.(*ast.FuncDecl)
+		if !ok || fd.Recv != nil || fd.Body == nil || fd.Type.Params == nil {
+			continue
+		}
+		var params []string
+		for _, p := range fd.Type.Params.List {
+			for _, n := range p.Names {
+				params = append(params, n.Name)
+			}
+		}
+		if len(params) != 2 {
+			continue
+		}
+		ast.Inspect(fd.Body, func(x ast.Node) bool {
+			if ce, ok := x.(*ast.CallExpr); ok && isSel(ce.Fun, "sshagent", "ServeAgent") && len(ce.Args) == 2 &&
+				isIdent(ce.Args[0], params[0]) && isIdent(ce.Args[1], params[1]) {
+				stdHelpers[fd.Name.Name] = true
+			}
+			return true
+		})
+	}
+}
+
+func isStdServe(ce *ast.CallExpr) bool {
+	if isSel(ce.Fun, "sshagent", "ServeAgent") {
+		return true
+	}
+	id, ok := ce.Fun.(*ast.Ident)
+	return ok && stdHelpers[id.Name]
+}
+
 func classOf(stmts []ast.Stmt) int {
 	cls := clsOther
 	set := func(c int) {
@@ -262,7 +301,7 @@ func classOf(stmts []ast.Stmt) int {
 				set(clsAttest)
 			case isSel(ce.Fun, "agent", "Wait"):
 				set(clsWait)
-			case isSel(ce.Fun, "sshagent", "ServeAgent"):
+			case isStdServe(ce):
 				set(clsStd)
 			case isSel(ce.Fun, "agent", "Forward"):
 				set(clsFwd)
@@ -289,6 +328,7 @@ func gen(repo string, w *bytes.Buffer) error {
 	if err != nil {
 		return err
 	}
+	findStdHelpers(fsrv)
 	ints, _ := tutil.ConstValues(fmsg)
 	ioInts, _ := tutil.ConstValues(fio)
 	for k, v := range ioInts {
@@ -583,7 +623,7 @@ func gen(repo string, w *bytes.Buffer) error {
 								if isIdent(v.Fun, "newForwarder") && len(v.Args) == 2 && isIdent(v.Args[0], "req") && isIdent(v.Args[1], "c") {
 									nf = true
 								}
-								if isSel(v.Fun, "sshagent", "ServeAgent") && len(v.Args) == 2 && isIdent(v.Args[0], "agent") && isIdent(v.Args[1], "forwarder") {
+								if isStdServe(v) && len(v.Args) == 2 && isIdent(v.Args[0], "agent") && isIdent(v.Args[1], "forwarder") {
 									sa = true
 								}
 							case *ast.IfStmt:
